@@ -46,13 +46,13 @@ def run(tier, seed):
     chk = Check('C06', tier, seed, 'model_checking')
     rng = random.Random(seed * 7919 + 6)
     quick = tier != 'thorough'
-    ngen = 24 if quick else 160
+    ngen = 24 if quick else 70
     items = ctrace.gather_programs(rng, ngen, corpus=('example', 'ok'), gen_kw=dict(maxdepth=2, maxstmts=3), base_args=())
     from gen import prog as genprog
-    for i in range(6 if quick else 40):
+    for i in range(6 if quick else 20):
         sd = rng.randrange(1 << 30)
         items.append(('cond:%d' % sd, genprog.gen_cond_program(sd)[1], []))
-    for i in range(8 if quick else 50):
+    for i in range(8 if quick else 24):
         sd = rng.randrange(1 << 30)
         items.append(('brk:%d' % sd, genprog.gen_break_program(sd)[1], []))
     for i in range(6 if quick else 40):
@@ -70,11 +70,11 @@ def run(tier, seed):
         items = it2
     else:
         items = [('%s|%s' % (n, ' '.join(o)), s, list(a) + o) for (n, s, a) in items for o in optsets]
-    out = ctrace.run_pipeline(chk, items, rng, seed, nwalks=6 if quick else 16, maxlen=30, chunk_mode='some', chunk_limit=2 if quick else 4,
-                              keep_records=True, cover=8 if quick else 20)
+    out = ctrace.run_pipeline(chk, items, rng, seed, nwalks=6 if quick else 10, maxlen=30, chunk_mode='some', chunk_limit=2 if quick else 4,
+                              keep_records=True, cover=8 if quick else 14)
     try:
         progs = out['progs']
-        cases, nsweeps, dropped = sweeps_for(chk, progs, rng, 3 if quick else 6, 2 if quick else 3, out['root'])
+        cases, nsweeps, dropped = sweeps_for(chk, progs, rng, 3 if quick else 5, 2 if quick else 3, out['root'])
         res, st = runner.validate_sweeps(cases, workers=2, parallel=8)
         nacc = nrej = 0
         undef = 0
@@ -112,7 +112,7 @@ def run(tier, seed):
             'sweeps_dropped_wide_values': dropped,
             'walk_traces': dict(out['counts']), 'unbuildable_programs': len(out['unbuildable']),
             'option_sets': optsets, 'exhaustive': False,
-            'rule': 'every state index of every program x %d forced data contexts x all 256 bytes + end(); plus guided multi-byte walks' % (3 if quick else 6),
+            'rule': 'every state index of every program x %d forced data contexts x all 256 bytes + end(); plus guided multi-byte walks' % (3 if quick else 5),
         }
         chk.assumptions = ['gcc -O1 build of the emitted C on x86-64', 'driver zero-fills the state struct and malloc blocks',
                            'steps whose evaluation leaves the modelled integer range (wide/ub) are not compared']
